@@ -17,6 +17,39 @@ func HostIdx(h string) int {
 	return i
 }
 
+// KeyIdx numbers the host part of a map key: a host of the pool, a server alias "a<k>"
+// (100+k) or a server alias regex "^r<k>$" (200+k, also as the maps write it: "^r<k>").
+func KeyIdx(h string) int {
+	var i int
+	switch {
+	case strings.HasPrefix(h, "a"):
+		fmt.Sscanf(h, "a%d", &i)
+		return 100 + i
+	case strings.HasPrefix(h, "^r"):
+		fmt.Sscanf(h, "^r%d", &i)
+		return 200 + i
+	}
+	return HostIdx(h)
+}
+
+// keyOwner is the host a key code belongs to: alias a<k> and alias regex r<k> belong to host k/2.
+func keyOwner(code int) int {
+	if code >= 100 {
+		return (code % 100) / 2
+	}
+	return code
+}
+
+// keyPath splits a map key "host#path"; a key of a regex map holds the path as a regex.
+func keyPath(k string) (int, int) {
+	kk := strings.SplitN(k, "#", 2)
+	p := kk[1]
+	if strings.HasPrefix(kk[0], "^") {
+		p = strings.TrimSuffix(p, "(/.*)?")
+	}
+	return KeyIdx(kk[0]), PathIdx(p)
+}
+
 // BackIdx numbers a backend of the pools: b0..b6 -> 0..6, bd -> 7, tb0.. -> 8..
 func BackIdx(b string) int {
 	var i int
@@ -119,8 +152,12 @@ func CoqOps(ops []Op) string {
 			for _, p := range o.HPaths {
 				ps = append(ps, [2]int{PathIdx(p[0]), BackIdx(p[1])})
 			}
-			out = append(out, fmt.Sprintf("OHostAcquire %s {| hver := %s; htls := %s; hpaths := %s |}",
-				hx.N(HostIdx(o.Name)), hx.N(o.Ver), hx.Bool(o.TLS), n2list(ps)))
+			var al []int
+			for _, a := range o.HAlias {
+				al = append(al, KeyIdx(a))
+			}
+			out = append(out, fmt.Sprintf("OHostAcquire %s {| hver := %s; htls := %s; hpaths := %s; halias := %s |}",
+				hx.N(HostIdx(o.Name)), hx.N(o.Ver), hx.Bool(o.TLS), n2list(ps), nlist(al)))
 		case "tacq":
 			out = append(out, fmt.Sprintf("OTcpAcquire %s {| tback := %s; ttls := %s |}", hx.N(TCPIdx(o.Name)), hx.N(BackIdx(o.TBack)), hx.Bool(o.TLS)))
 		case "default":
@@ -206,10 +243,14 @@ func CoqObs(d Disk, err, reload, runeq, failed bool) string {
 	var hm []trip
 	for _, l := range d.HTTPHost {
 		f := strings.Fields(l)
-		k := strings.SplitN(f[0], "#", 2)
-		hm = append(hm, trip{HostIdx(k[0]), PathIdx(k[1]), BackIdx(strings.TrimSuffix(strings.TrimPrefix(f[1], "ns_"), "_8080"))})
+		kh, kp := keyPath(f[0])
+		hm = append(hm, trip{kh, kp, BackIdx(strings.TrimSuffix(strings.TrimPrefix(f[1], "ns_"), "_8080"))})
 	}
+	// the order of the model: per host, its name then its aliases, each with the paths of the host
 	sort.Slice(hm, func(i, j int) bool {
+		if keyOwner(hm[i].h) != keyOwner(hm[j].h) {
+			return keyOwner(hm[i].h) < keyOwner(hm[j].h)
+		}
 		if hm[i].h != hm[j].h {
 			return hm[i].h < hm[j].h
 		}
@@ -237,10 +278,24 @@ func CoqObs(d Disk, err, reload, runeq, failed bool) string {
 	for _, b := range bnames {
 		var ks [][2]int
 		for _, k := range d.BackMaps[b] {
-			kk := strings.SplitN(k, "#", 2)
-			ks = append(ks, [2]int{HostIdx(kk[0]), PathIdx(kk[1])})
+			kh, kp := keyPath(strings.Fields(k)[0])
+			ks = append(ks, [2]int{kh, kp})
 		}
-		bms = append(bms, hx.Tuple(hx.N(BackIdx(b)), n2list(ks)))
+		// the order of the model: per (host, path) of the backend, the hostname then the aliases
+		sort.Slice(ks, func(i, j int) bool {
+			if keyOwner(ks[i][0]) != keyOwner(ks[j][0]) {
+				return keyOwner(ks[i][0]) < keyOwner(ks[j][0])
+			}
+			if ks[i][1] != ks[j][1] {
+				return ks[i][1] < ks[j][1]
+			}
+			return ks[i][0] < ks[j][0]
+		})
+		kl := make([]string, len(ks))
+		for i, v := range ks {
+			kl[i] = n2(v[0], v[1])
+		}
+		bms = append(bms, hx.Tuple(hx.N(BackIdx(b)), hx.List(kl)))
 	}
 	var tm [][2]int
 	for port, lines := range d.TCPMaps {
